@@ -395,6 +395,7 @@ def levels(rep, c, sfx):
         pe = PathEnum(op)
         bad = False
         n = 0
+        stale_copy = [False]
         for (ev, out) in exits(pe.paths()):
             incs = [i for i, e in enumerate(ev) if e.kind == "assign" and kind(e.node) == "AssignOp" and e.node["op"] == "+="
                     and (hirq.place(e.node["l"]) or ("", 0, []))[2][-1:] == ["prec"] and is_step(e.node["r"])]
@@ -402,23 +403,51 @@ def levels(rep, c, sfx):
             n += 1
             if len(incs) != 1 or (ins and ins[0] < incs[0]):
                 bad = True
+            # the level that is stored is the one read AFTER the increment: `self.prec` itself at the insert, or a local
+            # bound after it - a copy taken before (`let prec = self.prec; self.prec += STEP; insert(.., prec)`)
+            # numbers the levels from the constructor's initial value instead of initial + STEP
+            if len(incs) == 1 and ins:
+                for ii in ins:
+                    for y in walk(ev[ii].node):
+                        if kind(y) == "Path" and y.get("res") == "local" and str(y.get("ty", "")).lstrip("&") in ("u32", "usize"):
+                            li = [j for j, e2 in enumerate(ev) if e2.kind == "let" and any(
+                                b_[0] == y["id"] for b_ in hirq.pat_bindings(e2.node["pat"]))]
+                            if li and li[-1] < incs[0] and any(
+                                    kind(z) == "Field" and z["name"] == "prec" for z in walk(ev[li[-1]].node.get("init") or {})):
+                                stale_copy[0] = True
         r.instance("op:step", where(op["body"]), "%d paths" % n)
         if bad:
             r.violation("op:step", where(op["body"]), "PrattParser::op does not add PREC_STEP exactly once before "
                         "inserting the level's operators: operators of one .op() call get different levels, or two "
                         "calls share one")
-        new = c.fn("pest::pratt_parser::PrattParser::new")
-        if new is not None:
+        # every constructor (every struct literal of PrattParser, `Default::default` included) starts the counter so
+        # that the first level is >= PREC_STEP: with the increment before the store any initial value >= 0 will do,
+        # with a stored pre-increment copy the initial value itself is the first level
+        lits = []
+        for b in c.bodies:
+            if b.get("body") is None or b.get("exp") or "::tests::" in b["path"]:
+                continue
+            for x in walk(b["body"]):
+                if kind(x) == "Struct" and (str(x.get("path", "")) == "pest::pratt_parser::PrattParser"
+                                            or str(x.get("ty", "")).startswith("pest::pratt_parser::PrattParser<")):
+                    lits.append((b, x))
+        if not lits:
+            r.lost("a struct literal of PrattParser (constructor)")
+        for (b, x) in lits:
             init = None
-            for x in walk(new["body"]):
-                if kind(x) == "Struct":
-                    for f in x["fields"]:
-                        if f["name"] == "prec":
-                            init = f["e"]
-            r.instance("new:initial", where(new["body"]))
-            if init is None or not (is_step(init) or (isinstance(hirq.lit_value(init), int) and hirq.lit_value(init) >= 0)):
-                r.violation("new:initial", where(new["body"]), "initial precedence is not >= 0: first level - 1 can "
-                            "underflow")
+            for f in x["fields"]:
+                if f["name"] == "prec":
+                    init = f["e"]
+            key = "new:initial" if b["name"] == "new" else "ctor:%s:initial" % b["name"]
+            r.instance(key, where(x))
+            ok_init = init is not None and (is_step(init) or (
+                isinstance(hirq.lit_value(init), int) and hirq.lit_value(init) >= 0 and not stale_copy[0]))
+            if not ok_init:
+                r.violation(key, where(x),
+                            "%s starts the level counter at `%s`%s: the first .op() level is then below PREC_STEP, its "
+                            "operators never bind (`1+2` parses to `1`) and `prec - 1` underflows for a prefix operator"
+                            % (b["name"], hirq.expr_text(init)[:30] if init is not None else "?",
+                               " while op() stores the value read before the increment" if stale_copy[0] else ""))
     nc = c.fn("pest::pratt_parser::ConstPrattParser::new_const")
     if nc is None:
         r.lost("ConstPrattParser::new_const")
